@@ -373,10 +373,21 @@ def run(ck):
     msgs += [bytes(rng.randrange(256) for _ in range(rng.randrange(4, 300))) for _ in range(300 if ck.thorough else 60)]
     for m in msgs:
         for fn, name, spec in ((D.add_crc_a, "adda", crc_a), (D.add_crc_b, "addb", crc_b)):
-            real = outcome(lambda: fn(bytearray(m)))
+            arg = bytearray(m)
+            real = outcome(lambda: fn(arg))
             orc = None
             if real != "ok " + hx(m + spec(m)):
                 orc = ("crc-differs-from-iso", "%s(%s) = %s, ISO gives %s" % (name, m.hex(), real, (m + spec(m)).hex()))
+            elif bytes(arg) != m:
+                # the drivers hand the caller's command buffer to add_crc_x; a command that is sent again (retry after a
+                # timeout) must go out with exactly one CRC: the helper must not extend its argument in place
+                orc = ("crc-helper-modifies-argument", "%s changed its bytearray argument %s into %s (a command sent twice "
+                       "would carry two CRCs)" % (name, m.hex(), bytes(arg).hex()))
+            else:
+                again = outcome(lambda: fn(arg))
+                if again != real:
+                    orc = ("crc-helper-modifies-argument", "%s(%s) called twice on the same buffer: %s then %s"
+                           % (name, m.hex(), real, again))
             add("crc.%s %s" % (name, hx(m)), real, ("crc", name, m), len(m) > 0, "crc." + name, orc)
     chk = msgs if ck.thorough else msgs[:600] + msgs[-60:]
     for m in chk:
@@ -387,12 +398,15 @@ def run(ck):
                 bad[rng.randrange(len(bad))] ^= 1 << rng.randrange(8)
                 cands.append(bytes(bad))
             for c in cands:
+                carg = bytearray(c)
                 try:
-                    r = fn(bytearray(c))
+                    r = fn(carg)
                     real = "ok " + ("true" if r else "false")
                 except Exception as e:  # noqa
                     real = "exc " + exc_name(e)
                 orc = None
+                if bytes(carg) != c:
+                    orc = ("crc-helper-modifies-argument", "%s changed its argument %s into %s" % (name, c.hex(), bytes(carg).hex()))
                 if len(c) >= 2:
                     want = c[-2:] == spec(c[:-2])
                     if real != "ok " + ("true" if want else "false"):
